@@ -391,13 +391,17 @@ def record_time(ctx, objdir):
         # before the time filter is applied)
         ropts = rng.choice([[], [], ["-t", "1us"], ["-D", "3"], ["-F", "mid"], ["-N", "rec"], ["-F", "worker", "-N", "leaf"],
                             ["--trace=off", "-T", "mid@trace_on"], ["-T", "rec@trace_off"],
-                            ["-T", "mid@trace_off", "-T", "leaf@trace_on"], ["-T", "mid@depth=1"], ["-C", "leaf"]])
+                            ["-T", "mid@trace_off", "-T", "leaf@trace_on"], ["-T", "mid@depth=1"], ["-C", "leaf"],
+                            ["-t", "1ms", "-W", "cpu"], ["-t", "1ms", "-T", "mid@read=proc/statm"],
+                            ["-t", "1ms", "-T", "leaf@read=page-fault", "-W", "cpu"], ["-W", "cpu"]])
         if with_fork:
             ropts = []
         if k == 0:
             ropts = ["--trace=off", "-T", "mid@trace_on"]      # witness of the repaired defect 3895699
         if k == 1:
             ropts = ["-T", "rec@trace_off"]
+        if k == 3:
+            ropts = ["-t", "1ms", "-T", "mid@read=proc/statm", "-W", "cpu"]   # time-filtered calls with pending events
         rc, out, err = sh(["timeout", "60", uft, "record", "--no-pager", "--no-event", "--libmcount-path=" + objdir,
                            "-d", d, "-S", script] + ropts + [exe], timeout=90,
                           env={"PYTHONPATH": os.path.join(objdir, "python")})
